@@ -164,11 +164,6 @@ def run(ctx: Ctx) -> None:
     # ---- B5 ------------------------------------------------------------------------------------------
     ctx.rule("B5", "a dictionary with __position__ and __comments__ prints, comment pieces apart, exactly what the plain dictionary prints", 2)
     L = layout.Layout(e)
-    plain = L.format_lines(lambda: L.layer(), lambda: L.sym_options(end_comment=False, indent=2, spacer=" ", newlinechar="\n"), level=0, fork=False)
-    booked = L.format_lines(lambda: L.layer(hidden=True, comments=True), lambda: L.sym_options(end_comment=False, indent=2, spacer=" ", newlinechar="\n"), level=0, fork=False)
-    if plain[0][1] != "return" or booked[0][1] != "return":
-        raise AnalysisError("_format not evaluable on the representative LAYER")
-
     def no_comment(lines):
         out = []
         for ln in lines:
@@ -186,10 +181,26 @@ def run(ctx: Ctx) -> None:
                 out.append(t.describe())
         return out
 
-    a, b = no_comment(plain[0][2]), no_comment(booked[0][2])
-    ctx.check(a == b, "B5", "representative LAYER with and without bookkeeping", repo.loc("pprint", repo.func("pprint.PrettyPrinter._format")), f"{len(a)} lines", f"lines differ: plain {a} vs with bookkeeping {b}")
-    leaked = sorted({x.name for x in layout.atoms_in(booked[0][2]) if x.name.startswith("HIDDEN")})
-    ctx.check(not leaked, "B5", "__position__ data never printed", repo.loc("pprint", repo.func("pprint.PrettyPrinter._format")), "", f"position data reaches the output: {leaked}")
+    settings = {
+        "defaults, indent 2": dict(end_comment=False, indent=2, spacer=" ", newlinechar="\n"),
+        "align_values, indent 2": dict(end_comment=False, indent=2, spacer=" ", newlinechar="\n", align_values=True),
+        "align_values, indent 3": dict(end_comment=False, indent=3, spacer=" ", newlinechar="\n", align_values=True),
+        "align_values, indent 4": dict(end_comment=False, indent=4, spacer=" ", newlinechar="\n", align_values=True),
+        "end_comment, indent 4": dict(end_comment=True, indent=4, spacer=" ", newlinechar="\n"),
+        "align_values + separate_complex_types": dict(end_comment=False, indent=4, spacer=" ", newlinechar="\n", align_values=True, separate_complex_types=True),
+    }
+    for sname, opts, rep in [(sn, o, r) for sn, o in settings.items() for r in ("layer", "layer_mixed")]:
+        mkrep = getattr(L, rep)
+        sname = f"{sname} | {rep}"
+        plain = L.format_lines(lambda: mkrep(), lambda opts=opts: L.sym_options(**opts), level=0, fork=False)
+        booked = L.format_lines(lambda: mkrep(hidden=True, comments=True), lambda opts=opts: L.sym_options(**opts), level=0, fork=False)
+        if plain[0][1] != "return" or booked[0][1] != "return":
+            raise AnalysisError(f"_format not evaluable on the representative LAYER under {sname}")
+        a, b = no_comment(plain[0][2]), no_comment(booked[0][2])
+        diff = next(((x, y) for x, y in zip(a, b) if x != y), None)
+        ctx.check(a == b, "B5", f"representative LAYER with and without bookkeeping | {sname}", repo.loc("pprint", repo.func("pprint.PrettyPrinter._format")), f"{len(a)} lines", f"under {sname} the lines differ: plain {diff[0] if diff else a!r} vs with bookkeeping {diff[1] if diff else b!r}")
+        leaked = sorted({x.name for x in layout.atoms_in(booked[0][2]) if x.name.startswith("HIDDEN")})
+        ctx.check(not leaked, "B5", f"__position__ data never printed | {sname}", repo.loc("pprint", repo.func("pprint.PrettyPrinter._format")), "", f"position data reaches the output: {leaked}")
 
 
 def a1_comment(d, word):
